@@ -339,7 +339,7 @@ func leavesOnlyThroughErrors(from, s *ssa.BasicBlock, body map[*ssa.BasicBlock]b
 			return false
 		}
 		if isExitBlock(n.b) {
-			if !isErrorReturnBlock(n.b) {
+			if !isErrorReturnBlock(n.b) && !errorReturnOnPath(n) {
 				ok = false
 			}
 			return false
@@ -347,6 +347,43 @@ func leavesOnlyThroughErrors(from, s *ssa.BasicBlock, body map[*ssa.BasicBlock]b
 		return ok
 	})
 	return ok
+}
+
+// errorReturnOnPath: n.b returns an error value that is non-nil on the path that led here: a result
+// variable joined in this block takes the value of the edge the block was entered by, and a value
+// an earlier branch of the path found non-nil is non-nil.
+func errorReturnOnPath(n walkNode) bool {
+	if len(n.b.Instrs) == 0 {
+		return false
+	}
+	ret, ok := n.b.Instrs[len(n.b.Instrs)-1].(*ssa.Return)
+	if !ok || len(ret.Results) == 0 || !resultIsError(n.b.Parent()) {
+		return false
+	}
+	vals := resultValues(ret, len(ret.Results)-1)
+	if len(vals) != 1 {
+		return false
+	}
+	v := vals[0]
+	if phi, isPhi := v.(*ssa.Phi); isPhi && phi.Block() == n.b && n.pred != nil {
+		if pi := predIndex(n.pred, n.b); pi >= 0 && pi < len(phi.Edges) {
+			v = phi.Edges[pi]
+		}
+	}
+	if c, isC := v.(*ssa.Const); isC {
+		return !c.IsNil()
+	}
+	at := n.pred
+	if at == nil {
+		at = n.b
+	}
+	if knownNonNil(v, at, 0) {
+		return true
+	}
+	if val, known := truthOf(v, n.b, n.env, 0); known && val {
+		return true
+	}
+	return false
 }
 
 // onlyReachesErrorReturns: every exit reachable from b (without re-entering the loop) is an error return.
@@ -465,7 +502,27 @@ func (c *Check) ruleContractScanContinues(rule string) {
 		}
 		for _, v := range resultValues(ret, 0) {
 			b, isC := isConstBool(v)
-			if !isC || b {
+			if !isC {
+				// a result variable (`found := false; …; found = true; break; return found`): every edge on
+				// which it is the constant false must come from outside the loop body (the initial value)
+				srcs, _ := constSources(ret, v, 0)
+				for _, src := range srcs {
+					if bv, isB := isConstBool(src.Val); !isB || bv || src.Pred == nil {
+						continue
+					}
+					n++
+					inLoop := false
+					for _, h := range loopHeadersOf(fn) {
+						if body := loopBody(h); body[src.Pred] && src.Pred != h {
+							inLoop = true
+						}
+					}
+					c.Decide(!inLoop, rule, "spynode.checkContracts#false-only-after-all-outputs", ret.Pos(), "cfg-structure", nil,
+						"false is answered only when the output loop is exhausted", "checkContracts can answer false from inside the output loop (after the first non-contract action): a contract formation in a later output is missed")
+				}
+				continue
+			}
+			if b {
 				continue
 			}
 			n++
